@@ -437,7 +437,7 @@ fn refp_ops(rng: &mut Rng, tier: Tier, emit: &mut dyn FnMut(String)) {
     // the Lean model of the Rescue permutation costs about 15 ms per call and a proof needs about 4.5 calls per
     // LDE point: the quick tier keeps to a few dozen configurations with trace length 8..16 and LDE domains of
     // 16..32 points (a few of 64); the volume is in the thorough tier
-    let (count, max_log) = if quick { (56usize, 4u32) } else { (700, 5) };
+    let (count, max_log) = if quick { (56usize, 4u32) } else { (400, 5) };
     let sizes: &[usize] = if quick { &[16, 16, 32, 16, 32, 16, 16, 64, 16, 32, 16, 32] } else { &[16, 32, 64, 32, 128, 64, 32, 256, 64, 128] };
     let descs = refp_descs(rng, count, max_log);
     for (i, d) in descs.iter().enumerate() {
